@@ -29,6 +29,16 @@ def sql_str(s: str) -> str:
     return "'" + s.replace("\\", "\\\\").replace("'", "''") + "'"
 
 
+def dollar(s: str) -> str:
+    """Snowflake `$$…$$` string constant: the content is taken verbatim (no escape processing)"""
+    assert "$$" not in s
+    return "$$" + s + "$$"
+
+
+def quote(rnd, s: str, p_dollar: float = 0.3) -> str:
+    return dollar(s) if ("$" not in s and rnd.random() < p_dollar) else sql_str(s)
+
+
 # ------------------------------------------------------------------------------------------------
 # observation
 # ------------------------------------------------------------------------------------------------
@@ -161,6 +171,20 @@ def rx_eval(subject, pattern, params, start, group, occ_index0):
     return ms[occ_index0] if 0 <= occ_index0 < len(ms) else None
 
 
+def rr_doc(subject, pattern, repl, pos, occ, params):
+    """documented REGEXP_REPLACE: from character `pos` (default 1) replace every match (occurrence 0, the default) or
+    only the `occ`-th one; the part before `pos` is kept"""
+    flags = re.IGNORECASE if params and "i" in params else 0
+    head, tail = subject[: pos - 1], subject[pos - 1:]
+    if occ == 0:
+        return head + re.sub(pattern, repl, tail, flags=flags)
+    ms = list(re.finditer(pattern, tail, flags))
+    if occ > len(ms):
+        return subject
+    m = ms[occ - 1]
+    return head + tail[: m.start()] + m.expand(repl) + tail[m.end():]
+
+
 def dec_cast(value, is_string: bool, p: int, s: int, rounding):
     """value → DECIMAL(p, s); None when it does not fit / does not parse"""
     try:
@@ -256,8 +280,8 @@ def build(chk):
     rnd.shuffle(rx)
     rx = rx[: (400 if quick else 3000)]
     rx += [("abc abd abe", "ab.", 0, 5, 1, None, None), ("abc abd abe", "a(b)(.)", 2, 1, 2, "e", None), ("abc abd abe", "a(b)(.)", 2, 1, 2, "e", 2)]
-    for subj, pat, ng, pos, occ, params, group in rx:
-        args = [sql_str(subj), sql_str(pat)]
+    for ci, (subj, pat, ng, pos, occ, params, group) in enumerate(rx):
+        args = [sql_str(subj), sql_str(pat)] if ci >= len(rx) - 3 else [quote(rnd, subj), quote(rnd, pat)]
         # positional arguments: later ones force the earlier ones
         npos = 5 if group is not None else 4 if params is not None else 3 if occ is not None else 2 if pos is not None else 1
         vals = [pos if pos is not None else 1, occ if occ is not None else 1, params if params is not None else "c", group]
@@ -283,12 +307,14 @@ def build(chk):
     combos = [(fn, v, True, a) for fn in fns for v in strs for a in argsets] + [(fn, v, False, a) for fn in fns[:3] for v in nums for a in argsets[:7]]
     rnd.shuffle(combos)
     combos = combos[: (500 if quick else 3000)]
+    n_fixed_from = len(combos)
     combos += [("to_number", "12.5", True, []), ("to_number", "12.5", True, [10]), ("to_number", "12.5", True, [10, 1]), ("to_decimal", "2.5", True, []),
                ("to_number", "12.345", False, [10, 2]), ("to_number", "99.995", True, [4, 2]), ("to_number", "12", True, ["s"]), ("to_number", "12345678901234567890", True, []), ("to_decimal", "12345678901234567890", True, []),
                ("try_to_number", "12345678901234567890123456789012345678", True, []), ("try_to_number", "abc", True, [])]
-    for fn, v, is_str, a in combos:
-        lit = sql_str(v) if is_str else v
-        extra = "".join(", " + (sql_str("99.99") if t == "s" else str(t)) for t in a)
+    for ci, (fn, v, is_str, a) in enumerate(combos):
+        pd = 0.0 if ci >= n_fixed_from else 0.2
+        lit = quote(rnd, v, pd) if is_str else v
+        extra = "".join(", " + (quote(rnd, "99.99", pd) if t == "s" else str(t)) for t in a)
         x = f"{fn}({lit}{extra})"
         model_fn = "to_number" if fn == "to_number" else "anon"
         line = f"rewrite\ttonum\t{model_fn}\t" + enc_list(["s" if t == "s" else f"n{t}" for t in a])
@@ -312,13 +338,13 @@ def build(chk):
     for ci, (d, unit, n, shape) in enumerate(fixed_d + dcombos):
         spelled = unit if ci < len(fixed_d) else rnd.choice(units[unit])
         if shape == "castDate":
-            operand, mshape, base = f"'{d}'::date", "castDate", dt.date.fromisoformat(d)
+            operand, mshape, base = (f"'{d}'::date" if ci < len(fixed_d) else quote(rnd, d, 0.2) + "::date"), "castDate", dt.date.fromisoformat(d)
         elif shape == "castDate2":
             operand, mshape, base = f"cast('{d}' as date)", "castDate", dt.date.fromisoformat(d)
         elif shape == "toDate":
             operand, mshape, base = f"to_date('{d}')", "castDate", dt.date.fromisoformat(d)
         elif shape == "strLit":
-            operand, mshape, base = f"'{d} 10:30:00'", "strLit", dt.datetime.fromisoformat(d + " 10:30:00")
+            operand, mshape, base = quote(rnd, f"{d} 10:30:00"), "strLit", dt.datetime.fromisoformat(d + " 10:30:00")
         elif shape == "tsExpr":
             operand, mshape, base = f"'{d} 23:59:59'::timestamp", "tsExpr", dt.datetime.fromisoformat(d + " 23:59:59")
         else:
@@ -386,7 +412,7 @@ def build(chk):
     for s in ["abc", "", "it's", "äö", "a" * 100]:
         for fn in ("sha2", "sha2_hex", "sha2_binary"):
             for ln in (None, 256, 224, 384, 512, 128):
-                x = f"{fn}({sql_str(s)}" + (f", {ln})" if ln is not None else ")")
+                x = f"{fn}({quote(rnd, s)}" + (f", {ln})" if ln is not None else ")")
                 cases.append({"tag": f"sha2:{fn}", "task": ("expr", (x, ctx_pick(rnd, quick, k=1))), "line": f"rewrite\tsha2\t{fn}\t{'-' if ln is None else ln}", "x": x,
                               "judge": ("sha2", s, ln)})
     cases.append({"tag": "sha2:null", "task": ("expr", ("sha2(null)", ["select"])), "line": None, "x": "sha2(null)", "judge": ("fixed", "N", None, None)})
@@ -394,16 +420,54 @@ def build(chk):
     # ---- TRIM ----------------------------------------------------------------------------------------
     for s in ["  a  ", "xxaxx", "a", "", "  ", " x a x ", "\ta\t"]:
         for chars in (None, "x", " x", "a"):
-            x = f"trim({sql_str(s)}" + (f", {sql_str(chars)})" if chars is not None else ")")
+            x = f"trim({sql_str(s) if s == 'xxaxx' else quote(rnd, s)}" + (f", {sql_str(chars) if s == 'xxaxx' else quote(rnd, chars)})" if chars is not None else ")")
             cases.append({"tag": "trim", "task": ("expr", (x, ctx_pick(rnd, quick, k=1))), "line": f"rewrite\ttrim\t{enc_str(s)}\t{enc_opt(chars)}", "x": x, "judge": ("model_text",)})
 
     # ---- REGEXP_REPLACE, TO_DATE, TO_TIMESTAMP (oracle only) ---------------------------------------------
-    for subj, pat, rep in [("abcabc", "b", "X"), ("abcabc", "b", None), ("a1b22", "\\d+", "#"), ("aaa", "a", "bb"), ("", "a", "b"), ("abc", "(b)", "[\\1]")]:
-        x = f"regexp_replace({sql_str(subj)}, {sql_str(pat)}" + (f", {sql_str(rep)})" if rep is not None else ")")
-        want = re.sub(pat, rep or "", subj)
-        cases.append({"tag": "regexp_replace", "task": ("expr", (x, ctx_pick(rnd, quick, k=1))), "line": None, "x": x, "judge": ("fixed", "S" + want, None, None)})
-    cases.append({"tag": "regexp_replace:extra-args", "task": ("expr", ("regexp_replace('abcabc', 'b', 'X', 2)", ["select"])), "line": None, "x": "regexp_replace('abcabc', 'b', 'X', 2)",
-                  "judge": ("rejected",)})
+    rr_subjects = ["aaa", "a1b2c3", "abcabc", "AbAb", "", "a.a.a", "it's 1 2"]
+    rr_patterns = ["a", "\\d", "b", "[ab]", "a\\.", "(b)(c)?", "x"]
+    rr = []
+    for subj in rr_subjects:
+        for pat in rr_patterns:
+            for repl in (None, "X", "", "[\\1]" if "(" in pat else "#"):
+                rr.append((subj, pat, repl, None, None, None))
+            # 4-6 arguments: position / occurrence / parameters at and off their defaults
+            for pos in (1, 2, 3):
+                rr.append((subj, pat, "X", pos, None, None))
+                for occ in (0, 1, 2):
+                    rr.append((subj, pat, "X", pos, occ, None))
+                    for params in ("c", "i"):
+                        rr.append((subj, pat, "X", pos, occ, params))
+    rnd.shuffle(rr)
+    rr = rr[: (260 if quick else 2500)]
+    rr += [("aaa", "a", "b", 1, 1, None), ("aaa", "a", "b", 1, 0, None), ("aaa", "a", "b", 1, None, None), ("a1b2c3", "\\d", "", None, None, None),
+           ("abcabc", "b", None, None, None, None), ("AbAb", "a", "X", 1, 0, "i"), ("abc", "(b)", "[\\1]", None, None, None)]
+    for ci, (subj, pat, repl, pos, occ, params) in enumerate(rr):
+        fixed = ci >= len(rr) - 7
+        # the pattern is written `$$…$$` in a third of the cases (a RawString node, not a Literal)
+        pat_dollar = (not fixed and rnd.random() < 0.35) or (fixed and pat == "\\d")
+        args = [sql_str(subj) if fixed else quote(rnd, subj), dollar(pat) if pat_dollar else sql_str(pat)]
+        if repl is not None:
+            args.append(sql_str(repl) if fixed else quote(rnd, repl, 0.2))
+        for v in (pos, occ):
+            if v is not None:
+                args.append(str(v))
+        if params is not None:
+            args.append(sql_str(params))
+        x = f"regexp_replace({', '.join(args)})"
+        want = rr_doc(subj, pat, repl or "", pos or 1, occ or 0, params)
+        line = "rewrite\trr\t" + "\t".join(["raw" if pat_dollar else "lit", "1" if repl is not None else "0", "-" if pos is None else str(pos),
+                                             "-" if occ is None else str(occ), enc_opt(params)])
+        cases.append({"tag": "regexp_replace", "task": ("expr", (x, ctx_pick(rnd, quick, k=2))), "line": line, "x": x, "judge": ("rr", "S" + want)})
+    # `$$…$$` arguments of the other rewritten functions (oracle: the same call with ordinary literals)
+    for x, want in [("split($$a,b$$, $$,$$)", 'S["a","b"]'), ("split($$a.b$$, $$.$$)", 'S["a","b"]'), ("regexp_substr($$a1b22$$, $$\\d+$$, 1, 2)", "S22"),
+                    ("regexp_substr('a.b', $$a\\.b$$)", "Sa.b"), ("trim($$  a  $$)", "Sa"), ("equal_null($$a$$, 'a')", "B1"),
+                    ("datediff(day, $$2023-01-01$$, $$2023-01-03$$)", "I2"), ("to_date($$2023-01-05$$)", "d2023-01-05"),
+                    ("dateadd(day, 1, $$2023-01-31$$)", "t2023-02-01 00:00:00"), ("to_number($$12.5$$, 10, 1)", "D12.5"),
+                    ]:
+        cases.append({"tag": "dollar-quoted", "task": ("expr", (x, CONTEXTS)), "line": None, "x": x, "judge": ("fixed", want, None, None)})
+    cases.append({"tag": "regexp_replace:backslash", "task": ("expr", ("regexp_replace($$a\\b$$, $$\\\\$$, '/')", ["select", "where"])), "line": None,
+                  "x": "regexp_replace($$a\\b$$, $$\\\\$$, '/')", "judge": ("fixed", "Sa/b", "Sa\\b", "C10/regexp-pattern-backslash-unescaped-twice")})
     for x, want in [("to_date('2023-01-05')", "d2023-01-05"), ("to_date('2024-02-29')", "d2024-02-29"), ("to_timestamp('2023-01-05 10:00:00')", "t2023-01-05 10:00:00"),
                     ("to_timestamp_ntz('2023-01-05')", "t2023-01-05 00:00:00"), ("to_date(null)", "N")]:
         cases.append({"tag": "to_date/to_timestamp", "task": ("expr", (x, ctx_pick(rnd, quick, k=1))), "line": None, "x": x, "judge": ("fixed", want, None, None)})
@@ -467,6 +531,12 @@ def expected(case, rep):
             impl = as_type(dateadd_doc(unit, n, base), rep["impl"])
         key = None if rep["finding"] == "-" else rep["finding"]
         return obs_cell(spec), obs_cell(impl), key
+    if k == "rr":
+        # rewritten: every match is replaced — must be the documented value; rejected: an error; untouched cannot happen on this tree
+        out = rep["impl"]
+        if out.startswith("rewritten"):
+            return j[1], j[1], None
+        return "REJECTED_OR:" + j[1], "REJECTED_OR:" + j[1], None
     if k == "eqnull":
         return "B" + rep["spec"], "B" + rep["impl"], None
     if k == "sha2":
@@ -489,6 +559,9 @@ def expected(case, rep):
 def matches(want: str, real: str) -> bool:
     if want == "REJECTED":
         return real in REJECTED
+    if want.startswith("REJECTED_OR:"):
+        # a form fakesnow does not support: rejected, or answered with the documented value — never answered wrongly
+        return real in REJECTED or real == want[len("REJECTED_OR:"):]
     return want == real
 
 
@@ -499,10 +572,10 @@ def judge(chk, case, real, rep):
     if rep is not None and (rep.get("_raw") == "unsupported" or rep.get("_raw") == "bad-op"):
         chk.count("skipped_unsupported" if rep["_raw"] == "unsupported" else "skipped_bad_op")
         return
-    if k in ("fixed", "rx", "tonum", "dateadd", "eqnull", "sha2", "model_text", "rejected"):
+    if k in ("fixed", "rx", "rr", "tonum", "dateadd", "eqnull", "sha2", "model_text", "rejected"):
         spec, impl, key = expected(case, rep)
         for ctx, got in real.items():
-            chk.case((case["x"], ctx), nontrivial=spec not in ("N", "REJECTED"))
+            chk.case((case["x"], ctx), nontrivial=spec not in ("N", "REJECTED") and not spec.startswith("REJECTED_OR:"))
             chk.count(f"{tag.split(':')[0]}:{ctx}")
             c = dict(cinfo, context=ctx)
             if matches(spec, got):
